@@ -1,11 +1,24 @@
 (* C03 — property theorems only.  Each is closed by `exact` of a lemma of C03_Proofs.v. *)
 From Coq Require Import List NArith ZArith Bool.
-From Dae Require Import C03_Spec C03_Model C03_Proofs.
+From Dae Require Import C03_Spec C03_Model C03_Proofs C03_ParseProofs C03_BytesProofs C03_SeqProofs.
 From Dae.gen Require Import C03_Consts C03_Layout.
 Import ListNotations.
 Open Scope N_scope.
 
-(*PARSE_THEOREMS*)
+(* "No verdict depends on which of the two header-parsing paths handled the frame": for every link type,
+   skb protocol, frame (any list of bytes, any length) and linear length on which the direct-access path does
+   not ask for the fallback, both paths agree on everything a hook reads ... *)
+Theorem C03_parse_paths_agree : parse_paths_agree_stmt proj.
+Proof. exact parse_paths_agree_proof. Qed.
+Print Assumptions C03_parse_paths_agree.
+
+(* ... in fact the whole parse result is the same, so every hook returns the same result and state whatever
+   the linear length and whether or not bpf_skb_pull_data fails. *)
+Theorem C03_verdict_path_independent :
+  forall P st hk e eth proto pf lin pf' lin' f,
+    run_hook P st (mk_step hk e eth proto pf lin f) = run_hook P st (mk_step hk e eth proto pf' lin' f).
+Proof. exact path_independent_proof. Qed.
+Print Assumptions C03_verdict_path_independent.
 
 (* Packets sent by dae itself (its pid, its socket mark, or mark bit 0x100) are never captured again. *)
 Theorem C03_no_recapture :
@@ -124,6 +137,60 @@ Theorem C03_sticky_decision_udp_partial :
      wan_egress P (with_route e f) st (0%Z, Some pk) = wan_egress P e st (0%Z, Some pk)).
 Proof. intros; split; intro; [apply lan_udp_sticky_proof | apply wan_udp_sticky_proof]; assumption. Qed.
 Print Assumptions C03_sticky_decision_udp_partial.
+
+(* Sticky decision over packet sequences (TCP): take any state in which flow k has a stored decision d, and any
+   finite sequence of packets - any hooks, any flows, interleaved in any order, any link type / parse path, the
+   rule program, health bits and clock of every step arbitrary - in which no packet is a pure SYN of flow k (in
+   either direction) and no packet of flow k finds its entry idle beyond the timeout (120 s, 10 s after FIN/RST).
+   Then flow k still has exactly the decision d afterwards ... *)
+Theorem C03_sticky_decision :
+  forall P steps st k d,
+    k_proto k = IPPROTO_TCP -> dec_of (ks_conn st) k = Some d -> quiet_all P st steps k ->
+    dec_of (ks_conn (run_steps P st steps)) k = Some d.
+Proof. exact sticky_sequence_proof. Qed.
+Print Assumptions C03_sticky_decision.
+
+(* ... the decision d is the one the rule program gave for the connection's SYN at LAN ingress ... *)
+Theorem C03_sticky_decision_first_packet :
+  forall P e st pk,
+    pp_l4 pk = IPPROTO_TCP -> tcp_flags_new (pp_tcp pk) = true ->
+    (0 <= e_route e (rquery_of e pk false 0))%Z ->
+    dec_of (ks_conn (h_st (lan_ingress P e st (0%Z, Some pk)))) (pp_key pk) = Some (unpack (e_route e (rquery_of e pk false 0))).
+Proof. exact lan_syn_stores_proof. Qed.
+Print Assumptions C03_sticky_decision_first_packet.
+
+(* ... and the next packet of the flow gets the verdict of d at either forward hook, without the rule program
+   being consulted: direct passes (LAN: with the rule's mark), block drops, a dead group drops, any other group
+   is redirected to dae (LAN: with a handoff record carrying outbound, mark, must and the source MAC). *)
+Theorem C03_sticky_decision_verdict :
+  forall P e st pk d,
+    pp_l4 pk = IPPROTO_TCP -> tcp_flags_new (pp_tcp pk) = false ->
+    dec_of (ks_conn st) (pp_key pk) = Some d -> unexpired st (pp_key pk) (e_now e) ->
+    lan_follows P e pk d (lan_ingress P e st (0%Z, Some pk)) /\
+    (e_ingress_if e = 0 -> wan_follows e pk d (wan_egress P e st (0%Z, Some pk))).
+Proof. intros; split; [apply lan_follows_proof | intro; apply wan_follows_proof]; assumption. Qed.
+Print Assumptions C03_sticky_decision_verdict.
+
+(* The per-flow record through the bytes: what C stores in struct conn_state / struct routing_handoff_entry, read
+   back at the Go offsets of bpfConnState / bpfRoutingHandoffEntry, is the record itself; the Go key bytes of
+   bpfTuplesKeyFromAddrPorts are the C key bytes (and distinct flows have distinct keys); hence
+   RetrieveRoutingResult on the raw map bytes returns what it returns on the records. *)
+Theorem C03_handoff_roundtrip :
+  (forall s, wf_cstate s -> go_conn_decode (c_conn_bytes s) = s) /\
+  (forall h, wf_hentry h -> go_hand_decode (c_hand_bytes h) = h) /\
+  (forall k, go_key_bytes (k_sip k) (k_dip k) (k_sport k) (k_dport k) (k_proto k) = c_key_bytes k) /\
+  (forall a b, wf_key a -> wf_key b -> c_key_bytes a = c_key_bytes b -> a = b) /\
+  (forall st k now,
+      (forall s, tab_get (ks_conn st) k = Some s -> wf_cstate s) ->
+      (forall h, tab_get (ks_hand st) k = Some h -> wf_hentry h) ->
+      go_retrieve_bytes st k now = go_retrieve st k now).
+Proof.
+  exact (conj conn_roundtrip_proof (conj hand_roundtrip_proof (conj key_bytes_proof
+           (conj key_bytes_injective_proof retrieve_bytes_proof)))).
+Qed.
+Print Assumptions C03_handoff_roundtrip.
+
+(*HOOK_THEOREMS*)
 
 (* Non-vacuity: an established proxied TCP flow in the table; its ACK packet is redirected with the record,
    and a WAN-originated reply flow (entry without decision) passes. *)
